@@ -37,6 +37,9 @@ pub enum Base {
     Rat { u0: f64 },
     /// Prothero-Robinson: u' = lam (u - sin(om s)) + om cos(om s)
     PR { lam: f64, om: f64, u0: f64 },
+    /// nonlinear Prothero-Robinson: with e = u - sin(om s), u' = lam e (1 + e^2) + om cos(om s); the Jacobian
+    /// lam (1 + 3 e^2) depends on the state; e^2/(1+e^2) = C exp(2 lam tau) in closed form
+    NPR { lam: f64, om: f64, u0: f64 },
 }
 
 impl Base {
@@ -54,7 +57,8 @@ impl Base {
             | Base::Tanh { u0, .. }
             | Base::Bern { u0, .. }
             | Base::Rat { u0 }
-            | Base::PR { u0, .. } => vec![*u0],
+            | Base::PR { u0, .. }
+            | Base::NPR { u0, .. } => vec![*u0],
             Base::Rot { u0, .. } => u0.to_vec(),
         }
     }
@@ -74,10 +78,14 @@ impl Base {
             Base::Bern { a, b, .. } => du[0] = a * u[0] - b * u[0] * u[0] * u[0],
             Base::Rat { .. } => du[0] = -u[0] * u[0],
             Base::PR { lam, om, .. } => du[0] = lam * (u[0] - (om * s).sin()) + om * (om * s).cos(),
+            Base::NPR { lam, om, .. } => {
+                let e = u[0] - (om * s).sin();
+                du[0] = lam * e * (1.0 + e * e) + om * (om * s).cos();
+            }
         }
     }
     /// d g / d u as a (dim x dim) block
-    pub fn dg(&self, _s: f64, u: &[f64]) -> Vec<Vec<f64>> {
+    pub fn dg(&self, s: f64, u: &[f64]) -> Vec<Vec<f64>> {
         match *self {
             Base::Lin1 { lam, .. } => vec![vec![lam]],
             Base::Rot { a, w, .. } => vec![vec![a, -w], vec![w, a]],
@@ -87,6 +95,10 @@ impl Base {
             Base::Bern { a, b, .. } => vec![vec![a - 3.0 * b * u[0] * u[0]]],
             Base::Rat { .. } => vec![vec![-2.0 * u[0]]],
             Base::PR { lam, .. } => vec![vec![lam]],
+            Base::NPR { lam, om, .. } => {
+                let e = u[0] - (om * s).sin();
+                vec![vec![lam * (1.0 + 3.0 * e * e)]]
+            }
         }
     }
     /// exact solution at s when u(s0) = u0
@@ -113,6 +125,14 @@ impl Base {
             Base::PR { lam, om, u0 } => {
                 vec![(om * s).sin() + (lam * tau).exp() * (u0 - (om * s0).sin())]
             }
+            Base::NPR { lam, om, u0 } => {
+                let e0 = u0 - (om * s0).sin();
+                let c = e0 * e0 / (1.0 + e0 * e0);
+                let z = c * (2.0 * lam * tau).exp();
+                // |e| = sqrt(z / (1 - z)) written so that it does not lose the decaying factor to underflow of z
+                let e = e0.abs() / (1.0 + e0 * e0).sqrt() * (lam * tau).exp() / (1.0 - z).sqrt();
+                vec![(om * s).sin() + e0.signum() * e]
+            }
         }
     }
     /// |d u(s) / d u0| (sensitivity to the initial value), used for the amplification factor
@@ -128,6 +148,11 @@ impl Base {
             Base::Bern { a, u0, .. } => (u / u0).powi(3).abs() * (-2.0 * a * tau).exp(),
             Base::Rat { u0 } => (u / u0).powi(2),
             Base::PR { lam, .. } => (lam * tau).exp(),
+            Base::NPR { lam, om, u0 } => {
+                let e0 = u0 - (om * s0).sin();
+                let z = e0 * e0 / (1.0 + e0 * e0) * (2.0 * lam * tau).exp();
+                (lam * tau).exp() / ((1.0 + e0 * e0).powf(1.5) * (1.0 - z).powf(1.5))
+            }
         }
     }
     /// whether the closed form is regular on [s0, s1] (either order) with margin
@@ -142,6 +167,10 @@ impl Base {
             Base::Bern { a, b, u0 } => a > 0.0 && b > 0.0 && a / (u0 * u0) - b > 0.0,
             Base::Tanh { a, u0 } => (u0 / a).abs() < 0.95,
             Base::Logistic { k, u0, .. } => u0 > 0.0 && u0 < k,
+            Base::NPR { lam, om, u0 } => {
+                let e0 = u0 - (om * s0).sin();
+                e0 * e0 / (1.0 + e0 * e0) * (2.0 * lam * tau).exp().max(1.0) < 0.9
+            }
             _ => true,
         }
     }
